@@ -383,8 +383,11 @@ def c10_completion(case, obs, flavor):
             if top_final and o["S"] != "done" and not tree.legal_problems(o["C"]):
                 out.append({"kind": "not-completed", "step": step, "at": None, "detail": f"top-level final state {top_final[0]} is active but status is {o['S']}"})
             if o["S"] == "done" and not top_final:
-                # it may have been left again within the same macrostep only if something ran after done
-                out.append({"kind": "done-without-final", "step": step, "at": None, "detail": "status done but no top-level final state is active"})
+                tops = {c for c in tree.kids[tree.mid] if tree.kind[c] == "final"}
+                passed = any(r.startswith("#t:") and tops & set(r[3:].split(",")) for r in o["T"])
+                out.append({"kind": "done-without-final", "step": step, "at": None, "final_was_entered_in_step": passed,
+                            "detail": "status done but no top-level final state is active" +
+                                      (" (a top-level final state was entered and left again by a later transition of the same event)" if passed else "")})
         if o["S"] == "done":
             finished_at = step
             # user code after the completing entry within this very macrostep
